@@ -138,9 +138,24 @@ def main(argv=None):
         pool = ctx.Pool(min(a.jobs, len(tasks)), maxtasksperchild=1)
         results = pool.imap_unordered(_worker, tasks, chunksize=1)
     import pickle
-    for blob in results:
-        total.merge(pickle.loads(blob))
-    if a.jobs > 1 and len(tasks) > 1:
+    if a.jobs <= 1 or len(tasks) <= 1:
+        for blob in results:
+            total.merge(pickle.loads(blob))
+    else:
+        # a worker that dies (killed for memory, say) leaves the pool waiting for ever: bound the wait for the next result
+        limit = int(os.environ.get('VPX_SHARD_TIMEOUT', '5400' if a.tier == 'thorough' else '1500'))
+        done = 0
+        while done < len(tasks):
+            try:
+                blob = results.next(timeout=limit)
+            except StopIteration:
+                break
+            except multiprocessing.TimeoutError:
+                pool.terminate()
+                print('HARNESS-ERROR property=%s no shard result for %d s (%d of %d shards done): a worker died or hangs' % (pid, limit, done, len(tasks)))
+                return 2
+            total.merge(pickle.loads(blob))
+            done += 1
         pool.close()
         pool.join()
 
